@@ -175,8 +175,22 @@ def extract(repo):
     if not m:
         raise ValueError("STEPcomplex: part STEPread call not found")
     part_args = [a.strip() for a in m.group(1).split(",")]
-    merges = bool(re.search(r"if\s*\(\s*stepc\s*!=\s*this\s*\)\s*\{\s*(\w+)\.AppendFromErrorArg\(\s*&\(\s*stepc->Error\(\)\s*\)\s*\)\s*;\s*\}", xb)
-                  and re.search(r"_error\.AppendFromErrorArg\(\s*&\w+\s*\)\s*;\s*return\s+_error\.severity\(\)\s*;\s*$", xb.strip()))
+    # how the errors of the parts reach the instance's error: not at all / the whole error of every other part / the errors of
+    # the other parts' attributes except those flagged derived (a sibling part derives them)
+    tail_merge = bool(re.search(r"_error\.AppendFromErrorArg\(\s*&\w+\s*\)\s*;\s*return\s+_error\.severity\(\)\s*;\s*$", xb.strip()))
+    whole = re.search(r"if\s*\(\s*stepc\s*!=\s*this\s*\)\s*\{\s*(\w+)\.AppendFromErrorArg\(\s*&\(\s*stepc->Error\(\)\s*\)\s*\)\s*;\s*\}", xb)
+    per_attr = re.search(r"if\s*\(\s*stepc\s*!=\s*this\s*\)\s*\{\s*int\s+n\s*=\s*stepc->attributes\.list_length\(\)\s*;\s*for\s*\(\s*int\s+i\s*=\s*0\s*;\s*i\s*<\s*n\s*;\s*i\+\+\s*\)\s*\{\s*"
+                         r"STEPattribute\s*&\s*a\s*=\s*stepc->attributes\[i\]\s*;\s*if\s*\(\s*!a\.IsDerived\(\)\s*&&\s*\(\s*a\.Error\(\)\.severity\(\)\s*<=\s*(SEVERITY_\w+)\s*\)\s*\)\s*\{\s*"
+                         r"(\w+)\.AppendFromErrorArg\(\s*&\(\s*a\.Error\(\)\s*\)\s*\)\s*;\s*\}\s*\}\s*\}", xb)
+    if whole and tail_merge:
+        cx_merge = "all"
+    elif per_attr and tail_merge and per_attr.group(1) == merge_thr:
+        cx_merge = "nonDerivedAttrs"
+    elif not whole and not per_attr and not tail_merge and "partErrors" not in xb:
+        cx_merge = "none"
+    else:
+        raise ValueError("STEPcomplex::STEPread: unknown way of merging the parts' errors")
+    merges = cx_merge == "all"
     # --- p21read exit rule
     pr = _strip(open(os.path.join(repo, "src/test/p21read/p21read.cc")).read())
     m = re.search(r"sfile\.ReadExchangeFile\(\s*flnm\s*\)\s*;.*?if\s*\(\s*sfile\.Error\(\)\.severity\(\)\s*<=\s*(SEVERITY_\w+)\s*\)\s*\{\s*exit\(\s*1\s*\)\s*;", pr, re.S)
@@ -249,6 +263,8 @@ def extract(repo):
     L.append(f"def complexPartStrict : Option Bool := {strict_arg(part_args, inst_default)}")
     L.append("/-- does `STEPcomplex::STEPread` merge what the parts other than the head report into its result? -/")
     L.append(f"def complexMergesParts : Bool := {'true' if merges else 'false'}")
+    L.append("/-- how `STEPcomplex::STEPread` merges the parts' errors: \"none\" (only the first part's error survives), \"all\" (the whole error of every part), \"nonDerivedAttrs\" (the errors of the other parts' attributes, attributes flagged derived excepted) -/")
+    L.append(f"def complexMerge : String := {_lean_str(cx_merge)}")
     L.append("/-- p21read: exit status 1 when the severity after reading is at or below this one -/")
     L.append(f"def p21readExitThreshold : Sev := {_sev(exit_thr)}")
     L.append(f"def p21readStrictDefault : Bool := {p21_default}")
